@@ -51,6 +51,34 @@ func TestVerifReplayC20(t *testing.T) {
 	if v, ok := m["value"]; ok {
 		lengths = append(lengths, len(modelString(v)))
 	}
+	// arbitrary bytes (not only base64 text): invalid UTF-8, multi-byte runes, hyphens, NULs
+	raw := func(n int) string {
+		b := make([]byte, n)
+		r.Read(b)
+		return string(b)
+	}
+	special := []string{"\xff", "abc\xffdef", strings.Repeat("\xe2\x82\xac", 400), strings.Repeat("-", 500), "a-b-c", strings.Repeat("\x00", 300), raw(1), raw(213), raw(214), raw(1000), raw(5000)}
+	for _, prefix := range prefixes {
+		for si, value := range special {
+			parts, err := BreakIntoNextProtos(prefix, value)
+			if err != nil {
+				t.Fatalf("special payload %d: break: %v", si, err)
+			}
+			for i, p := range parts {
+				if !strings.HasPrefix(p, prefix) || len(p) > 255 {
+					t.Fatalf("special payload %d: entry %d malformed (%d bytes)", si, i, len(p))
+				}
+			}
+			mixed := append([]string{"h2"}, parts...)
+			mixed = append(mixed, "http/1.1")
+			for vi, v := range [][]string{parts, mixed} {
+				got, err := CombineFromNextProtos(prefix, v)
+				if err != nil || got != value {
+					t.Fatalf("special payload %d variant %d: round trip differs (%d bytes back, %d wanted, err %v)", si, vi, len(got), len(value), err)
+				}
+			}
+		}
+	}
 	for _, prefix := range prefixes {
 		for _, n := range lengths {
 			value := gen(n)
